@@ -209,7 +209,16 @@ def size_estimate(job):
     return n
 
 
-PRELUDE_HEAD = 'From Coq Require Import Uint63.\n'
+PRELUDE_HEAD = '''From Coq Require Import Uint63.
+(* the digest of Model/Client.v (digest_trie) instantiated with a polynomial hash on primitive integers;
+   the same function is computed by c16_sched.mix on the observations recorded on the real class *)
+Definition n2i (x : N) : int := match x with N0 => 0%uint63 | Npos p => of_pos p end.
+Definition mix (acc : int) (l : list N) : int :=
+  fold_left (fun a x => (a * 6364136223846793005 + n2i x + 1)%uint63) l (acc * 6364136223846793005 + 77)%uint63.
+Definition check_case (x : cfg * oracle * list (list op) * trie * int) : bool :=
+  let '(y, d) := x in
+  match case_digest int mix 0%uint63 y with Some d' => Uint63.eqb d' d | None => false end.
+'''
 
 
 def coq_compare(ctx, cases):
@@ -325,6 +334,18 @@ def run(ctx):
         for term, dg, n in r['cases']:
             cases.append((j['cfg'], j['oracle'], j['scripts'], term, dg))
             owner.append(ji)
+    pcs = set()
+    for j, r in zip(jobs, results):
+        if not r.get('sampled'):
+            pcs.update(r.get('pcs', ()))
+        for code, n in r.get('branches', {}).items():
+            ctx.histogram('exception_at_end_of_schedule', S.EXN[int(code) - 1] if 0 < int(code) <= len(S.EXN) else 'other', n)
+    allpcs = set(S.pc_loc(S.Cfg(), ('RTestL', None)) and k for k in (
+        'PAcq PAcqW PTestH PRet1 PHas PRet2 PMk PStart PRel PRelExc CEntry CTry CGet CExc CRun RAcq RAcqW RRead RTestL '
+        'RJoinL RJoinW RHas RCallRun RPopen RConnect RRel RRelExc CSend CRecv CIsOk CRet KTry KGet KExc KPass KSend '
+        'KClose KDel SNew S68 S69 SPopen SConnect S71 SDone').split())
+    cov['model_lines_reached_in_fully_covered_graphs'] = '%d of %d' % (len(pcs & allpcs), len(allpcs))
+    cov['model_lines_not_reached'] = sorted(allpcs - pcs)
     cov['schedule_tree_nodes'] = sum(r['nodes'] for r in results)
     cov['lines_executed_on_real_class'] = sum(r['steps'] for r in results)
     for j, r in list(zip(jobs, results))[:400]:
